@@ -17,7 +17,8 @@ ASSUMPTIONS = [
 
 SCORERS = [None, {"cls": "CUSUM"}, {"cls": "L2Cost"}, {"cls": "ChangeScore", "cost": {"cls": "L2Cost"}},
            {"cls": "WeightedCUSUM", "weights": [0.0, 2.0, -1.0]}, {"cls": "ChangeScore", "cost": {"cls": "TrendPenalisedL2Cost", "weight": 0.5}},
-           {"cls": "ChangeScore", "cost": {"cls": "GaussianVarCost"}}, {"cls": "GaussianVarCost"}, "function", "table"]
+           {"cls": "ChangeScore", "cost": {"cls": "GaussianVarCost"}}, {"cls": "GaussianVarCost"}, "function", "table",
+           {"cls": "SecondMomentChangeScore"}]
 
 
 def oracle_scorer_spec(spec):
